@@ -33,13 +33,17 @@ ValuesOf(P) ==
 \* ---- expansion: which derived traits got an impl, which an error ----
 ExplainsExpand(e) ==
     LET O == Outcomes(e.P, DSet(e))
-    IN  IF Misplaced(e.P, DSet(e))
-        THEN \* the whole derivation is refused: no impl at all, at least one error
-             /\ \A t \in CmpTraits : e.classes[t] # "impl"
-             /\ \E t \in DSet(e) : e.classes[t] = "error"
-        ELSE \A t \in CmpTraits :
-               e.classes[t] = IF t \notin DSet(e) THEN "none"
-                              ELSE IF AcceptedO(O, t) THEN "impl" ELSE "error"
+        classes_ok ==
+            IF Misplaced(e.P, DSet(e))
+            THEN \* the whole derivation is refused: no impl at all, at least one error
+                 /\ \A t \in CmpTraits : e.classes[t] # "impl"
+                 /\ \E t \in DSet(e) : e.classes[t] = "error"
+            ELSE \A t \in CmpTraits :
+                   e.classes[t] = IF t \notin DSet(e) THEN "none"
+                                  ELSE IF AcceptedO(O, t) THEN "impl" ELSE "error"
+    IN  /\ classes_ok
+        \* attribute entry: every helper attribute recognised for the derived set is removed from the re-emitted item
+        /\ ("leftover" \in DOMAIN e => e.leftover = <<>>)
 
 \* ---- run time: full result tables of the compiled impls ----
 ExplainsRun(e) ==
